@@ -221,3 +221,120 @@ func shortFuncName(fn *ssa.Function) string {
 	}
 	return n
 }
+
+// ---- implicit lifting: primitives that see through single-call-site helpers ----
+
+// curCtx is the context of the run in progress; the free-standing CFG primitives use it to
+// see through transparent helpers.
+var curCtx *Ctx
+
+// soleCaller: the only static call site of a transparent helper (nil when fn is not one, or has several).
+func soleCaller(fn *ssa.Function) ssa.CallInstruction {
+	c := curCtx
+	if c == nil || fn == nil || fn.Parent() != nil || !c.transparent(fn) {
+		return nil
+	}
+	sites := c.P.CallIndex().Sites[fn]
+	if len(sites) != 1 {
+		return nil
+	}
+	return sites[0]
+}
+
+// liftTo returns the instruction of function fn (or of a closure nested in fn) that stands for i:
+// i itself, or the call site through which the helper containing i is entered (climbing sole callers).
+func liftTo(i ssa.Instruction, fn *ssa.Function) ssa.Instruction {
+	for hops := 0; hops < 4; hops++ {
+		for f := i.Parent(); f != nil; f = f.Parent() {
+			if f == fn {
+				return i
+			}
+		}
+		site := soleCaller(i.Parent())
+		if site == nil {
+			// a closure of a helper: climb to the helper first
+			if p := i.Parent().Parent(); p != nil {
+				if s2 := soleCaller(outermost(p)); s2 != nil {
+					i = s2
+					continue
+				}
+			}
+			return nil
+		}
+		i = site
+	}
+	return nil
+}
+
+func outermost(fn *ssa.Function) *ssa.Function {
+	for fn.Parent() != nil {
+		fn = fn.Parent()
+	}
+	return fn
+}
+
+// eachFam calls f for every instruction of root, of its closures and of the transparent helpers they call, once each.
+func (c *Ctx) eachFam(root *ssa.Function, f func(i ssa.Instruction)) {
+	seen := map[ssa.Instruction]bool{}
+	for _, fi := range c.familyInstrs(root) {
+		if !seen[fi.I] {
+			seen[fi.I] = true
+			f(fi.I)
+		}
+	}
+}
+
+// eachFamTop: like eachFam but without the closures of root itself (instructions of root and of helpers reached from it).
+func (c *Ctx) eachFamOwn(root *ssa.Function, f func(i ssa.Instruction)) {
+	seen := map[ssa.Instruction]bool{}
+	for _, fi := range c.familyInstrs(root) {
+		top := fi.Top()
+		if top.Parent() != root {
+			continue
+		}
+		if !seen[fi.I] {
+			seen[fi.I] = true
+			f(fi.I)
+		}
+	}
+}
+
+// domIn: block b of function b.Parent() dominates instruction i, seen through helpers:
+// i (or the call site that leads to it) lies in the region dominated by b.
+func domIn(b *ssa.BasicBlock, i ssa.Instruction) bool {
+	li := liftTo(i, b.Parent())
+	if li == nil || li.Parent() != b.Parent() {
+		return false
+	}
+	return b.Dominates(li.Block())
+}
+
+// dominatesFam: instruction a executes before b on every path, seen through helpers.
+// a in a helper: its call site must dominate b and a must lie on every normal path through the helper.
+func dominatesFam(a, b ssa.Instruction) bool {
+	if a.Parent() == b.Parent() {
+		return core.Dominates(a, b)
+	}
+	// b inside a helper of a's function
+	if lb := liftTo(b, a.Parent()); lb != nil && lb.Parent() == a.Parent() {
+		return lb == a || core.Dominates(a, lb)
+	}
+	// a inside a helper of b's function
+	if la := liftTo(a, b.Parent()); la != nil && la.Parent() == b.Parent() {
+		return core.Dominates(la, b) && alwaysExecuted(a)
+	}
+	return false
+}
+
+// alwaysExecuted: a's block dominates every normal return of its function (a runs whenever the function returns).
+func alwaysExecuted(a ssa.Instruction) bool {
+	fn := a.Parent()
+	for _, bl := range fn.Blocks {
+		if _, ok := bl.Instrs[len(bl.Instrs)-1].(*ssa.Return); ok && bl != fn.Recover {
+			if !a.Block().Dominates(bl) {
+				return false
+			}
+		}
+	}
+	return true
+}
